@@ -60,8 +60,38 @@ def match_apply(fn, outer_arg):
     return ok
 
 
-def classify_function(fn, classes):
+def is_partial_of(e, c, funs):
+    """P(c) where P is a function already classified as factory-partial -> True"""
+    return (isinstance(e, ast.Call) and is_name(e.func) and funs.get(e.func.id, (None,))[0] == "factory-partial" and len(e.args) == 1
+            and not e.keywords and is_name(e.args[0], c))
+
+
+def elementwise(v, x, apply_name, c, funs):
+    """the value `v` is the list of apply(e) for e in x, in order, always a new list: list(map(apply, x)) | [apply(e) for e in x] |
+    [c(**e) if isinstance(e, dict) else e for e in x]; `apply_name` is a local bound to the apply closure (or None), and a call
+    P(c) of a factory-partial function may stand for it."""
+    def is_apply(f):
+        return (apply_name is not None and is_name(f, apply_name)) or is_partial_of(f, c, funs)
+    if (isinstance(v, ast.Call) and is_name(v.func, "list") and len(v.args) == 1 and not v.keywords and isinstance(v.args[0], ast.Call)
+            and is_name(v.args[0].func, "map") and len(v.args[0].args) == 2 and not v.args[0].keywords and is_apply(v.args[0].args[0])
+            and is_name(v.args[0].args[1], x)):
+        return True
+    if isinstance(v, ast.ListComp) and len(v.generators) == 1 and not v.generators[0].ifs and not v.generators[0].is_async \
+            and is_name(v.generators[0].iter, x) and is_name(v.generators[0].target):
+        e = v.generators[0].target.id
+        if e in (x, c, apply_name):
+            return False
+        el = v.elt
+        if isinstance(el, ast.Call) and is_apply(el.func) and len(el.args) == 1 and not el.keywords and is_name(el.args[0], e):
+            return True
+        if (isinstance(el, ast.IfExp) and U(el.test) == "isinstance(%s, dict)" % e and is_call_starstar(el.body, e) == c and is_name(el.orelse, e)):
+            return True
+    return False
+
+
+def classify_function(fn, classes, funs=None):
     """-> (kind, data).  kinds: factory-partial, factory-list, dispatch-kw, dispatch-pos, vld-noop, vld-cross, create, other"""
+    funs = funs or {}
     body = strip_doc(fn.body)
     a = fn.args
     plain = not (a.vararg or a.kwonlyargs or a.posonlyargs or a.defaults or a.kw_defaults) and not fn.decorator_list
@@ -70,29 +100,47 @@ def classify_function(fn, classes):
         c = a.args[0].arg
         if len(body) == 2 and match_apply(body[0], c) and isinstance(body[1], ast.Return) and is_name(body[1].value, body[0].name):
             return "factory-partial", None
-        if (len(body) == 3 and match_apply(body[0], c) and isinstance(body[1], ast.FunctionDef) and isinstance(body[2], ast.Return)
-                and is_name(body[2].value, body[1].name)):
-            conv = body[1]
+        if (len(body) == 1 and isinstance(body[0], ast.Return) and isinstance(body[0].value, ast.Lambda)):
+            lam = body[0].value
+            la = lam.args
+            if (len(la.args) == 1 and not (la.vararg or la.kwarg or la.kwonlyargs or la.posonlyargs or la.defaults) and la.args[0].arg != c
+                    and isinstance(lam.body, ast.IfExp) and U(lam.body.test) == "isinstance(%s, dict)" % la.args[0].arg
+                    and is_call_starstar(lam.body.body, la.args[0].arg) == c and is_name(lam.body.orelse, la.args[0].arg)):
+                return "factory-partial", None
+        # list_converter: [the apply closure, defined here or obtained from a factory-partial function;] a one-argument converter
+        # that maps it over its argument; return the converter
+        b = list(body)
+        apply_name = None
+        if b and match_apply(b[0], c):
+            apply_name, b = b[0].name, b[1:]
+        elif (b and isinstance(b[0], ast.Assign) and len(b[0].targets) == 1 and is_name(b[0].targets[0]) and is_partial_of(b[0].value, c, funs)
+              and b[0].targets[0].id != c):
+            apply_name, b = b[0].targets[0].id, b[1:]
+        if len(b) == 2 and isinstance(b[0], ast.FunctionDef) and isinstance(b[1], ast.Return) and is_name(b[1].value, b[0].name):
+            conv = b[0]
             cb = strip_doc(conv.body)
-            if len(conv.args.args) == 1 and len(cb) == 1 and isinstance(cb[0], ast.Return):
-                x = conv.args.args[0].arg
-                v = cb[0].value
-                want = "list(map(%s, %s))" % (body[0].name, x)
-                alt = "[%s(e) for e in %s]" % (body[0].name, x)
-                if U(v) == want or (isinstance(v, ast.ListComp) and len(v.generators) == 1 and not v.generators[0].ifs
-                                    and is_name(v.generators[0].iter, x) and isinstance(v.elt, ast.Call) and is_name(v.elt.func, body[0].name)
-                                    and len(v.elt.args) == 1 and is_name(v.elt.args[0]) and is_name(v.generators[0].target, v.elt.args[0].id)):
-                    return "factory-list", None
+            ca = conv.args
+            if (len(ca.args) == 1 and not (ca.vararg or ca.kwarg or ca.kwonlyargs or ca.posonlyargs or ca.defaults) and not conv.decorator_list
+                    and len(cb) == 1 and isinstance(cb[0], ast.Return) and ca.args[0].arg not in (c, apply_name)
+                    and elementwise(cb[0].value, ca.args[0].arg, apply_name, c, funs)):
+                return "factory-list", None
             raise Reject("list-converter factory %s has an unmodelled converter body: %s" % (fn.name, U(conv)))
-    # dispatch by lookup table:  def f(**info): [if info is None: return None]; lut = {...}; c = lut.get(info[key]); if c: return c(**info); raise
+        if (len(b) == 1 and isinstance(b[0], ast.Return) and isinstance(b[0].value, ast.Lambda) and len(b[0].value.args.args) == 1
+                and not (b[0].value.args.vararg or b[0].value.args.kwarg or b[0].value.args.kwonlyargs or b[0].value.args.defaults)
+                and b[0].value.args.args[0].arg not in (c, apply_name)
+                and elementwise(b[0].value.body, b[0].value.args.args[0].arg, apply_name, c, funs)):
+            return "factory-list", None
+    # dispatch by lookup table:
+    #   def f(**info): [if info is None: return None]  lut = {"k": C, ...}  [kind = info[key]]  c = lut.get(info[key] | kind)
+    #   then   if c: return c(**info)  raise ...      |   if c: return c(**info) else: raise ...
+    #   or     if c is None / not c: raise ...   return c(**info)
     if not a.args and a.kwarg and not (a.vararg or a.kwonlyargs or a.posonlyargs) and not fn.decorator_list:
         info = a.kwarg.arg
         b = list(body)
         if b and isinstance(b[0], ast.If) and U(b[0].test) == "%s is None" % info and len(b[0].body) == 1 and U(b[0].body[0]) == "return None" and not b[0].orelse:
             b = b[1:]      # dead for a **kwargs parameter
-        if (len(b) == 4 and isinstance(b[0], (ast.Assign, ast.AnnAssign)) and isinstance(b[0].value, ast.Dict)
-                and isinstance(b[1], ast.Assign) and isinstance(b[2], ast.If) and isinstance(b[3], ast.Raise)):
-            lutname = (b[0].targets[0] if isinstance(b[0], ast.Assign) else b[0].target)
+        if b and isinstance(b[0], (ast.Assign, ast.AnnAssign)) and isinstance(b[0].value, ast.Dict):
+            lutname = (b[0].targets[0] if isinstance(b[0], ast.Assign) and len(b[0].targets) == 1 else getattr(b[0], "target", None))
             d = b[0].value
             cases = []
             for k, v in zip(d.keys, d.values):
@@ -101,18 +149,55 @@ def classify_function(fn, classes):
                 cases.append((k.value, v.id))
             if len({k for k, _ in cases}) != len(cases):
                 raise Reject("duplicate key in dispatch table of " + fn.name)
-            g = b[1].value
-            ok = (is_name(lutname) and len(b[1].targets) == 1 and is_name(b[1].targets[0]) and isinstance(g, ast.Call) and isinstance(g.func, ast.Attribute)
-                  and g.func.attr == "get" and is_name(g.func.value, lutname.id) and len(g.args) == 1 and not g.keywords
-                  and isinstance(g.args[0], ast.Subscript) and is_name(g.args[0].value, info) and isinstance(g.args[0].slice, ast.Constant)
-                  and isinstance(g.args[0].slice.value, str))
+            if not is_name(lutname) or lutname.id == info:
+                raise Reject("dispatch function %s outside grammar (table name)" % fn.name)
+            b = b[1:]
+
+            def key_of(e):
+                if isinstance(e, ast.Subscript) and is_name(e.value, info) and isinstance(e.slice, ast.Constant) and isinstance(e.slice.value, str):
+                    return e.slice.value
+                return None
+            keyvar = key = None
+            if (b and isinstance(b[0], ast.Assign) and len(b[0].targets) == 1 and is_name(b[0].targets[0]) and key_of(b[0].value)
+                    and b[0].targets[0].id not in (info, lutname.id)):
+                keyvar, key, b = b[0].targets[0].id, key_of(b[0].value), b[1:]
+            ok = bool(b) and isinstance(b[0], ast.Assign) and len(b[0].targets) == 1 and is_name(b[0].targets[0])
             if ok:
-                cname = b[1].targets[0].id
-                ok = (is_name(b[2].test, cname) and not b[2].orelse and len(b[2].body) == 1 and isinstance(b[2].body[0], ast.Return)
-                      and is_call_starstar(b[2].body[0].value, info) == cname)
+                g = b[0].value
+                cname = b[0].targets[0].id
+                ok = (isinstance(g, ast.Call) and isinstance(g.func, ast.Attribute) and g.func.attr == "get" and is_name(g.func.value, lutname.id)
+                      and len(g.args) == 1 and not g.keywords and cname not in (info, lutname.id, keyvar))
+                if ok:
+                    if keyvar is not None and is_name(g.args[0], keyvar):
+                        pass
+                    elif keyvar is None and key_of(g.args[0]):
+                        key = key_of(g.args[0])
+                    else:
+                        ok = False
+            if ok:
+                rest = b[1:]
+
+                def truthy(t):
+                    return is_name(t, cname) or U(t) == "%s is not None" % cname
+
+                def falsy(t):
+                    return U(t) in ("not %s" % cname, "%s is None" % cname)
+
+                def is_ret(sts):
+                    return len(sts) == 1 and isinstance(sts[0], ast.Return) and is_call_starstar(sts[0].value, info) == cname
+
+                def is_raise(sts):
+                    return len(sts) == 1 and isinstance(sts[0], ast.Raise) and sts[0].exc is not None
+                ok = False
+                if rest and isinstance(rest[0], ast.If):
+                    iff, tail = rest[0], rest[1:]
+                    if truthy(iff.test) and is_ret(iff.body) and ((not iff.orelse and is_raise(tail)) or (is_raise(iff.orelse) and not tail)):
+                        ok = True
+                    elif falsy(iff.test) and is_raise(iff.body) and ((not iff.orelse and is_ret(tail)) or (is_ret(iff.orelse) and not tail)):
+                        ok = True
             if not ok:
                 raise Reject("dispatch function %s outside grammar" % fn.name)
-            return "dispatch-kw", {"key": g.args[0].slice.value, "cases": cases, "default": None}
+            return "dispatch-kw", {"key": key, "cases": cases, "default": None}
         raise Reject("**kwargs function %s outside the dispatch grammar" % fn.name)
     # dispatch by comparison:  def f(info): if info[key] == "k": return C(**info) ...; return D(**info)
     if plain and not a.kwarg and len(a.args) == 1 and body and isinstance(body[-1], ast.Return) and is_call_starstar(body[-1].value, a.args[0].arg):
@@ -376,7 +461,7 @@ def translate():
             if n.name == "create_lsp_model":
                 create = create_fn(n, classes)
             else:
-                funs[n.name] = classify_function(n, classes)
+                funs[n.name] = classify_function(n, classes, funs)
         elif isinstance(n, ast.ClassDef) or isinstance(n, (ast.Import, ast.ImportFrom)):
             pass
         elif isinstance(n, ast.Expr) and isinstance(n.value, ast.Constant):
